@@ -419,7 +419,7 @@ fn gen_case(rng: &mut StdRng) -> Case {
     Case {
         own_id: IDS[rng.gen_range(0..3)],
         p1: [127u8, 128][rng.gen_range(0..2)],
-        class: if slave_only { 255 } else { [6u8, 127, 128, 248][rng.gen_range(0..4)] },
+        class: if slave_only { 255 } else { [0u8, 1, 6, 127, 128, 248, 254][rng.gen_range(0..7)] },
         acc: [0x20u8, 0xfe][rng.gen_range(0..2)],
         var: [0x4000u16, 0xffff][rng.gen_range(0..2)],
         p2: 128,
@@ -464,10 +464,10 @@ pub fn run(rep: &mut Report, tier: &str, seed: u64, shard: (u32, u32), replay: O
     let thorough = tier == "thorough";
     for own_id in IDS {
         for p1 in [127u8, 128] {
-            for class in [6u8, 127, 128, 248] {
+            for class in [0u8, 1, 6, 127, 128, 248] {
                 for acc in [0x20u8, 0xfe] {
                     for m_p1 in [127u8, 128] {
-                        for m_class in [6u8, 127, 128, 248] {
+                        for m_class in [0u8, 6, 127, 128, 248] {
                             for m_acc in [0x20u8, 0xfe] {
                                 for m_var in [0x4000u16, 0xffff] {
                                     for m_p2 in [127u8, 128] {
